@@ -50,6 +50,6 @@ func fuzzReader(f *testing.F, kinds ...string) {
 }
 
 func FuzzFasta(f *testing.F) { fuzzReader(f, "fasta", "fasta-q") }
-func FuzzFastq(f *testing.F) { fuzzReader(f, "fastq", "fastq-plain") }
+func FuzzFastq(f *testing.F) { fuzzReader(f, append([]string{"fastq"}, FastqVariants...)...) }
 func FuzzBed(f *testing.F)   { fuzzReader(f, "bed3", "bed4", "bed5", "bed6", "bed12") }
 func FuzzGff(f *testing.F)   { fuzzReader(f, "gff") }
